@@ -101,7 +101,9 @@ def checkCycle (inp obs : KV) : Option String × List (String × String) :=
     ("needs1", toString (obs.nat "needs1")), ("infl1", toString (obs.int "infl1")), ("needsmid", toString (obs.nat "needsmid")),
     ("b2", s!"{showBatches o2mid}+{showBatches (sortBatches o2left)}"), ("inbuf2", toString (obs.nat "inbuf2")),
     ("needs2", toString (obs.nat "needs2")), ("needs3", toString (obs.nat "needs3")), ("infl3", toString (obs.int "infl3"))]
-  let viol := monitorCycle c buf o1 (obs.nat "inbuf1") ++ monitorCycle c2 e1.remaining o2 (obs.nat "inbuf2")
+  -- the monitors judge the observation alone: what the second cycle may deliver is what the FIRST OBSERVED cycle left
+  let rem1 := buf.filter (fun o => !(o1.flatten).contains o.id)
+  let viol := monitorCycle c buf o1 (obs.nat "inbuf1") ++ monitorCycle c2 rem1 o2 (obs.nat "inbuf2")
     ++ (if obs.nat "cb1" != o1.length then [("C01", "batches-raised-differ-from-callbacks-started")] else [])
     ++ (if obs.nat "needs1" != total then [("C03", "demand-differs-from-outstanding-cost-after-cycle")] else [])
     ++ (match slots with
